@@ -144,6 +144,8 @@ def triple_phi(cls, rnd):
         return (s, s * logu(rnd, 1e-3, 1), s), True
     if cls == "allEqual":
         return (s, s, s), True
+    if cls == "oneTiny":
+        return (s * logu(rnd, 1e-6, 2e-4), s * rnd.uniform(0.05, 0.95), s), True
     if cls == "smallUV":
         return (s * logu(rnd, 1e-6, 1e-4), s * logu(rnd, 1e-6, 1e-4), s), True
     raise KeyError(cls)
@@ -219,7 +221,7 @@ def run(tier, seed):
                 emit(fn, cls, args, g, "base", ok)
                 if fn in SYMMETRIC:
                     perms = [p for p in itertools.permutations(args) if p != tuple(args)]
-                    for p in (perms if len(perms) <= 2 else rnd.sample(perms, 2)):
+                    for p in perms:                      # every other ordering of the arguments
                         emit(fn, cls, p, g, "perm", ok)
                 if fn in HOMOGENEOUS:
                     kk = 2.0 ** rnd.choice([-7, -2, 3, 10])
